@@ -9,6 +9,12 @@ ArgumentNode = namedtuple("ArgumentNode", ("name", "value", "lineno"))
 ExpressionNode = namedtuple("ExpressionNode", ("value", "lineno"))
 
 
+def count_line_breaks(text):
+    """ Returns the number of line breaks in the text; a CR/LF pair is one line break """
+
+    return text.count("\n") + text.count("\r") - text.count("\r\n")
+
+
 class Lexer(object):
     def __init__(self):
         self.lexer = lex.lex(module=self)
@@ -31,7 +37,7 @@ class Lexer(object):
     ]
 
     t_ignore = " \t"
-    t_ignore_COMMENT = r'\#.*'
+    t_ignore_COMMENT = r'\#[^\r\n]*'
 
     t_COLON = ":"
     t_COMMA = ","
@@ -60,12 +66,13 @@ class Lexer(object):
 
     @TOKEN(r'("(\\.|[^"\\])*")|(\'(\\.|[^\'\\])*\')')
     def t_STRING(self, t):
+        t.lexer.lineno += count_line_breaks(t.value)
         t.value = t.value.strip("\"'").encode().decode("unicode_escape")
         return t
 
     @TOKEN(r"[\r\n]+")
     def t_newline(self, t):
-        t.lexer.lineno += len(t.value)
+        t.lexer.lineno += count_line_breaks(t.value)
 
     def t_error(self, t):
         raise SyntaxError("Illegal character {0} at position {1}".format(t.value[0], t.lexpos))
